@@ -1031,6 +1031,47 @@ fn run_sets(rec: &Value, rng: &mut Rng, out: &mut Out) {
     out.count("sets_items");
 }
 
+// ------------------------------------------------------------------ part uri (EXT: drift only)
+
+fn run_uri(rec: &Value, out: &mut Out) {
+    let u = &rec["uri"];
+    let host = match u["host"].as_str().unwrap() {
+        "name" => "turn.example.org",
+        "ip4" => "192.0.2.7",
+        _ => "[2001:db8::7]",
+    };
+    let mut s = format!("{}:{}", u["scheme"].as_str().unwrap(), host);
+    if u["port"] != "none" {
+        s.push(':');
+        s.push_str(u["port"].as_str().unwrap());
+    }
+    if u["query"] != "none" {
+        s.push_str("?transport=");
+        s.push_str(u["query"].as_str().unwrap());
+    }
+    let e = &rec["expect"];
+    let got = catch(|| rustrtc::transports::ice::verif_parse_ice_server_uri(&s));
+    let ok = match (&got, e["valid"].as_bool().unwrap()) {
+        (Err(_), _) => false, // panic
+        (Ok(Err(_)), false) => true,
+        (Ok(Ok((kind, h, port, tr))), true) => {
+            kind == e["kind"].as_str().unwrap()
+                && h.trim_matches(|c| c == '[' || c == ']') == host.trim_matches(|c| c == '[' || c == ']')
+                && port.to_string() == e["port"].as_str().unwrap()
+                && tr == e["transport"].as_str().unwrap()
+        }
+        _ => false,
+    };
+    if !ok {
+        *out.stats.entry("uri_drift".into()).or_default() += 1;
+        if out.stats["uri_drift"] <= 12 {
+            out.rows.push(json!({"type": "drift", "part": "uri", "rule": "EXT", "detail": {"what": "ICE server URI", "uri": s,
+                "expected": e, "observed": format!("{:?}", got.map(|r| r.map_err(|e| e.to_string())))}}));
+        }
+    }
+    out.count("uri_items");
+}
+
 fn main() {
     let args: Vec<String> = std::env::args().collect();
     if args.len() < 3 {
@@ -1062,6 +1103,7 @@ fn main() {
             "cand" => run_cand(rec, &mut rng, &mut out),
             "prio" => run_prio(rec, &mut out),
             "sets" => run_sets(rec, &mut rng, &mut out),
+            "uri" => run_uri(rec, &mut out),
             other => panic!("unknown part {other}"),
         }
         out.count("items");
